@@ -22,6 +22,10 @@ SHAPES = {
     # BuiltinImplementationSpecifications
     'TwoB': ('PY_Two', 'CO_Two', 2, 2,
              {'0': [], '1': [0], '2': [1]}, [2, 2]),
+    # like Two, with classes whose truth value is False (a metaclass with
+    # __bool__/__len__: registries, enum-like classes)
+    'TwoF': ('PY_Two', 'CO_Two', 2, 2,
+             {'0': [], '1': [0], '2': [1]}, [2, 2]),
     'Tri': ('PY_Tri', 'CO_Tri', 3, 3,
             {'0': [], '1': [0], '2': [1], '3': [2, 1]}, [3, 3, 2]),
     'Mixin': ('PY_Mixin', 'CO_Mixin', 4, 3,
@@ -34,6 +38,8 @@ INVS = ['TypeOK', 'ProvidedWithinInterval', 'NoLeak', 'SuperIsRestOfMro',
 # (shape, depth, ArgLists, WithSuper, WithClassProv, Ops, kind, num)
 PLAN = {
     ('C01', 'quick'): [('Two', 5, 'Args1', False, True, 'AllOps', 'mc', 0),
+                       # every transition (not only every state) as a case
+                       ('Two', 4, 'Args1', False, False, 'AllOps', 'mce', 0),
                        ('Chain', 4, 'Args1', False, False, 'AllOps', 'mc', 0),
                        ('TwoB', 4, 'Args1', False, False, 'AllOps', 'mc', 0),
                        ('Tri', 4, 'Args1', False, False, 'ClassOps', 'mc', 0),
@@ -44,6 +50,10 @@ PLAN = {
                        ('Diamond', 14, 'Args12', False, True, 'AllOps', 'sim',
                         300)],
     ('C01', 'thorough'): [('Two', 6, 'Args12', False, True, 'AllOps', 'mc', 0),
+                          ('Two', 5, 'Args12', False, True, 'AllOps', 'mce',
+                           0),
+                          ('Tri', 4, 'Args1', False, False, 'AllOps', 'mce',
+                           0),
                           ('Chain', 5, 'Args1', False, False, 'AllOps', 'mc',
                            0),
                           ('Diamond', 5, 'Args1', False, False, 'AllOps',
@@ -60,6 +70,8 @@ PLAN = {
                            'sim', 8000)],
     ('C19', 'quick'): [('Diamond', 4, 'Args1', True, False, 'ClassOps', 'mc',
                         0),
+                       ('Mixin', 4, 'Args1', True, False, 'ClassOps', 'mce',
+                        0),
                        ('Mixin', 4, 'Args1', True, False, 'ClassOps', 'mc',
                         0),
                        ('Mixin', 12, 'Args12', True, False, 'AllOps', 'sim',
@@ -75,7 +87,10 @@ PLAN = {
                           ('Mixin', 20, 'Args12', True, False, 'AllOps',
                            'sim', 5000)],
     ('C13', 'quick'): [('Two', 4, 'Args1', False, True, 'AllOps', 'mc', 0),
+                       ('Two', 4, 'Args1', False, False, 'ClassOps', 'mce',
+                        0),
                        ('TwoB', 4, 'Args1', False, False, 'AllOps', 'mc', 0),
+                       ('TwoF', 4, 'Args1', False, True, 'AllOps', 'mc', 0),
                        ('Chain', 10, 'Args12', False, True, 'AllOps', 'sim',
                         200),
                        ('Mixin', 10, 'Args12', False, True, 'AllOps', 'sim',
@@ -111,7 +126,7 @@ def main(pid, tier):
 
 def run(pid, tier, v, build, plan=None):
     exhaustive = True
-    budget = 2500 if tier == 'quick' else 10 ** 9
+    budget = 40000 if tier == 'quick' else 10 ** 9
     if True:
         for (shape, depth, args, wsup, wcp, ops, kind, num) in \
                 (plan or PLAN)[(pid, tier)]:
@@ -119,15 +134,17 @@ def run(pid, tier, v, build, plan=None):
             consts = {'NI': 3, 'IBases': '<-IB_3', 'NC': nc,
                       'PyBases': '<-' + pyb, 'NO': no, 'ClassOf': '<-' + cof,
                       'PinnedC01': 'FALSE', 'PinnedC13': 'FALSE',
-                      'MaxDepth': depth if kind == 'mc' else 1000,
+                      'MaxDepth': depth if kind != 'sim' else 1000,
                       'ArgLists': '<-' + args, 'WithSuper': tla_bool(wsup),
                       'WithClassProv': tla_bool(wcp), 'Ops': '<-' + ops}
+            edges = (kind == 'mce')
             cfg = make_cfg(build.dir, 'decl', consts, init='MCInit',
                            view='View', constraint='Bound',
                            invariants=INVS + ['Dump'],
-                           properties=['Unrelated'] if kind == 'mc' else [])
+                           action_constraint='EmitHist' if edges else None,
+                           properties=['Unrelated'] if kind != 'sim' else [])
             name = '%s %s depth=%d %s %s' % (kind, shape, depth, args, ops)
-            if kind == 'mc':
+            if kind != 'sim':
                 res = run_tlc('MC_Declarations', cfg, scratch=build.dir,
                               timeout=3000,
                               workers=1 if tier == 'quick' else None)
@@ -148,9 +165,21 @@ def run(pid, tier, v, build, plan=None):
                     steps = [{'act': a} for a in r['hist']]
                     steps[-1]['obs'] = r['obs']
                     cases.append({'steps': steps})
+            elif kind == 'mce':
+                obs = {json.dumps(r['key'], sort_keys=True): r['obs']
+                       for r in res.lines if r.get('kind') == 'obs'}
+                for r in res.lines:
+                    if r.get('kind') != 'edge':
+                        continue
+                    o = obs.get(json.dumps(r['key'], sort_keys=True))
+                    if o is None:
+                        continue
+                    steps = [{'act': a} for a in r['hist']]
+                    steps[-1]['obs'] = o
+                    cases.append({'steps': steps})
             else:
-                # simulation prints every state of every behaviour; keep the
-                # maximal ones (a behaviour's last state) and probe midway
+                # random behaviours print every state; keep the maximal ones
+                # (a behaviour's last state)
                 prev = None
                 for r in res.lines:
                     if prev is not None and len(r['hist']) <= len(prev['hist']):
@@ -167,7 +196,7 @@ def run(pid, tier, v, build, plan=None):
             if len(cases) > budget:
                 cases = rnd.sample(cases, budget)
                 exhaustive = False
-            if kind != 'mc':
+            if kind == 'sim':
                 exhaustive = exhaustive and tier != 'quick'
             jobs = []
             for implv in ('c', 'py'):
@@ -178,6 +207,7 @@ def run(pid, tier, v, build, plan=None):
                         'classof': cofd, 'cases': sh, 'shard': si,
                         'builtin': {'1': 'complex'} if shape == 'TwoB'
                         else {},
+                        'falsy_classes': shape == 'TwoF',
                         'seed': seed() * 100 + si}))
             for (implv, job), r in zip(jobs, run_children(
                     build, 'replay_declarations.py', jobs)):
